@@ -14,7 +14,7 @@ def main():
     seed, n = sys.argv[1], sys.argv[2]
     out = subprocess.run([os.path.join(ROOT, "harness/target/debug/dump_c05"), seed, n], capture_output=True, text=True).stdout
     stats = {"systems": 0, "checked": 0, "excluded_no_gap": 0, "excluded_degenerate": 0, "no_constraints": 0,
-             "fully_constrained": 0, "with_free_variables": 0, "violations": 0}
+             "fully_constrained": 0, "with_free_variables": 0, "fell_back_to_a_previous_level": 0, "violations": 0}
     seen = set()
     for line in out.splitlines():
         if not line.startswith("DOF "):
@@ -57,6 +57,8 @@ def main():
                         continue
                     expected = [j for j in range(nv) if relp[j] >= 3e-2]
         stats["checked"] += 1
+        if rec.get("fell_back"):
+            stats["fell_back_to_a_previous_level"] += 1
         stats["with_free_variables" if expected else "fully_constrained"] += 1
         if expected != reported:
             stats["violations"] += 1
